@@ -14,6 +14,7 @@ ASSUMPTIONS = ["the 'OSNR never increases' clause is asserted through the exact 
                "with BW: output must equal the library's own BPF applied to the unfiltered output obtained under the same RNG state"]
 TOLERANCES = {"deterministic_rtol": 1e-9, "statistical_sigmas": 6}
 MIN_CHECKS = {"edfa.signal": 300, "edfa.noise_gain": 300, "stat.power": 6, "stat.independent": 6}
+SHARDS = {"quick": 4}
 
 D = T = None
 
